@@ -161,12 +161,15 @@ func execC12(w *c12W, x *Exec) *Outcome {
 		cfg.MaxSteps = 400000
 	}
 	if w.Volume {
-		cfg.MaxSteps = 6000000
+		cfg.MaxSteps = 1200000 // a clean volume run needs about a tenth of this
 	}
 	tr := runTraversal(x, cfg, w.Graph, stmts, travOpts{CancelAfter: -1})
 	if tr.Bubble.Verdict == simrt.Budget && simrt.Policy(w.Run.Policy) != simrt.PolRR {
 		cfg.Policy = simrt.PolRR
 		cfg.MaxSteps = 3000000
+		if w.Volume {
+			cfg.MaxSteps = 1500000
+		}
 		o.Count("reran_under_fair_policy", 1)
 		tr = runTraversal(x, cfg, w.Graph, stmts, travOpts{CancelAfter: -1})
 	}
